@@ -582,7 +582,13 @@ func (in *Interp) appendOp(s SliceV, tv Value, st types.Type) Value {
 	// reallocation
 	slack := uint64(in.eng.cfg.AppendSlack)
 	newCap := ts.Add(newLen, ts.Const(64, slack))
-	lenOnly := (s.O != nil && s.O.lenOnly) || (t.O != nil && t.O.lenOnly && scalar && false)
+	lenOnly := (s.O != nil && s.O.lenOnly) || (t.O != nil && t.O.lenOnly)
+	if !lenOnly && scalar && !newCap.IsConst() {
+		if ub := in.ubSolver(newCap, uint64(in.eng.cfg.MaxAlloc)); ub == fullHi {
+			lenOnly = true
+			in.note("length-only allocation (size may exceed physical limit)")
+		}
+	}
 	var o *Obj
 	if lenOnly {
 		in.objSeq++
